@@ -73,9 +73,11 @@ package limiter
 //@   oncall Unlock: held = false
 //@   oncall TokensAt?: nTok = nTok + 1
 //@   oncall TokensAt?: gAt = arg1
+//@   ghost gL *rate.Limiter = nil
+//@   oncall TokensAt?: gL = arg0
 //@   modifies *
 //@   ensures !held
-//@   callsite Delete?: [C15:forgetting-an-entry-loses-no-debt] arg1 == key && nTok >= 1 && tokensAt(value.l, gAt) >= float64(burstOf(value.l))
+//@   callsite Delete?: [C15:forgetting-an-entry-loses-no-debt] arg1 == key && nTok >= 1 && tokensAt(gL, gAt) >= float64(burstOf(gL))
 //@   callsite TokensAt?: [C15:bucket-read-under-the-entry-lock] held && arg0 == value.l
 
 //@ func (cl *ClientLimiter) Close() (err error)
